@@ -105,6 +105,63 @@ func addWide(t *rapid.T, tree *hx.Node, classes []string) {
 	}
 }
 
+// addFitted adds a directory whose records, all of one size, fill the first sector of its extent exactly in one of the
+// two hierarchies ('.' and '..' take 68 bytes, so sizes dividing 1980), and whose count is at or next to the number that
+// fills k sectors: the boundary cases of "a record never crosses a sector" and of the extent-size arithmetic.
+func addFitted(t *rapid.T, tree *hx.Node) {
+	type fit struct{ rec, nameLen int }
+	var fits []fit
+	joliet := rapid.Bool().Draw(t, "fit-joliet")
+	for _, r := range []int{36, 44, 60, 66, 90, 110, 132, 180, 198, 220} {
+		if joliet {
+			if l := (r - 34) / 2; l >= 3 && l <= 100 {
+				fits = append(fits, fit{r, l}) // 33 + 2l + 1 pad
+			}
+		} else if r-33 <= 100 { // the same names must fit a Joliet record (34 + 2 per character <= 255)
+			fits = append(fits, fit{r, r - 33}) // odd name length, no pad
+			if r > 36 {
+				fits = append(fits, fit{r, r - 34}) // even name length, one pad byte
+			}
+		}
+	}
+	f := fits[rapid.IntRange(0, len(fits)-1).Draw(t, "fit-size")]
+	n := 1980 / f.rec
+	for k := rapid.IntRange(1, 3).Draw(t, "fit-sectors"); k > 1; k-- {
+		n += 2048 / f.rec
+	}
+	n += rapid.IntRange(-1, 1).Draw(t, "fit-delta")
+	var dirs []*hx.Node
+	tree.Walk(func(_ string, nd *hx.Node) {
+		if nd.Kind == "dir" {
+			dirs = append(dirs, nd)
+		}
+	})
+	parent := dirs[rapid.IntRange(0, len(dirs)-1).Draw(t, "fit-parent")]
+	for _, c := range parent.Children {
+		if strings.EqualFold(c.Name, "FIT") {
+			return
+		}
+	}
+	d := hx.Dir("FIT")
+	subdirs := rapid.IntRange(0, 3).Draw(t, "fit-subdirs")
+	for i := 0; i < n; i++ {
+		num := fmt.Sprintf("%03d", i)
+		name := (strings.Repeat("N", f.nameLen) + num)[len(num):]
+		if f.nameLen < 3 {
+			name = num[3-f.nameLen:]
+			if i >= 100 {
+				name = string(rune('A'+i/10-10)) + num[2:]
+			}
+		}
+		if i%9 < subdirs && i%9 == i/9 {
+			d.Children = append(d.Children, hx.Dir(name))
+		} else {
+			d.Children = append(d.Children, hx.File(name, int64(i%3), uint64(7000+i)))
+		}
+	}
+	parent.Children = append(parent.Children, d)
+}
+
 func genC07(t *rapid.T) isoCase {
 	shape := rapid.IntRange(0, 9).Draw(t, "shape")
 	o := hx.TreeOpts{MaxDepth: 3, MaxEntries: 6, MaxTotal: 40, MaxFile: 150000, EmptyBias: true, MTimes: true}
@@ -119,6 +176,9 @@ func genC07(t *rapid.T) isoCase {
 	tree := hx.GenTree(t, o)
 	if shape == 3 || shape == 4 {
 		addWide(t, tree, nil)
+	}
+	if shape == 5 {
+		addFitted(t, tree)
 	}
 	c := isoCase{Tree: tree, PS3: rapid.IntRange(0, 2).Draw(t, "ps3") == 0, PermSeed: rapid.Uint64().Draw(t, "perm"),
 		Route: rapid.SampledFrom([]string{"lib", "lib", "lib", "net", "makeiso"}).Draw(t, "route")}
